@@ -23,8 +23,10 @@ pub open spec fn combine(a: Summary, b: Summary) -> Summary {
     Summary {
         total_items: (a.total_items + b.total_items) as u64,
         bases_covered: (a.bases_covered + b.bases_covered) as u64,
-        min_val: fmin(a.min_val, b.min_val),
-        max_val: fmax(a.max_val, b.max_val),
+        // C06: statistics over the covered bases: a chromosome that covers nothing has no min/max to contribute,
+        // and the first chromosome that covers something provides them unchanged
+        min_val: if b.bases_covered > 0 { if a.bases_covered == 0 { b.min_val } else { fmin(a.min_val, b.min_val) } } else { a.min_val },
+        max_val: if b.bases_covered > 0 { if a.bases_covered == 0 { b.max_val } else { fmax(a.max_val, b.max_val) } } else { a.max_val },
         sum: a.sum.add_spec(b.sum),
         sum_squares: a.sum_squares.add_spec(b.sum_squares),
     }
